@@ -2,6 +2,7 @@ package rules
 
 import (
 	"go/ast"
+	"go/token"
 	"go/types"
 	"sort"
 	"strings"
@@ -23,6 +24,8 @@ func init() {
 			"announced ids and scheduled groups derive from the same liveChildDescriptors result (initial frame, nested frames, sequence arm); the stream's Complete() is called only from a defer registered after the first successful Flush; defer groups use a plain errgroup that is joined; " +
 			"the defer normalization stages are registered in the documented order. It does not decide reconstruction equality with the non-deferred response.",
 		Mutants: []Mutant{
+			{Name: "a foreign defer scope is looked into when its id is smaller (seeded change C10-12)", File: "v2/pkg/engine/resolve/resolvable.go", Rule: "C10-R12", Key: "Resolvable.collectDeferFields/defer-ids-not-ordered",
+				Old: "if !r.isDeferAncestor(obj.Fields[i].Defer.DeferID, r.currentDefer.ParentID) {", New: "if obj.Fields[i].Defer.DeferID > r.currentDefer.ID {"},
 			{Name: "the defer info collector looks the list ancestor up by its response name (seeded change C10-2)", File: "v2/pkg/engine/plan/defer_info_collector.go", Rule: "C10-R11", Key: "deferInfoCollector.outermostListFieldIndex/schema-lookup-by-schema-name:NodeFieldDefinitionByName",
 				Old: "c.definition.NodeFieldDefinitionByName(parentType, c.operation.FieldNameBytes(ancestor.Ref))", New: "c.definition.NodeFieldDefinitionByName(parentType, c.operation.FieldAliasOrNameBytes(ancestor.Ref))"},
 			{Name: "lists of lists are not looked into while a defer is rendered (reverts the F57 fix)", File: "v2/pkg/engine/resolve/resolvable.go", Rule: "C10-R9", Key: "Resolvable.fieldNodeKindAllowsSeek/item-kind-reached-by-loop-or-recursion",
@@ -61,6 +64,7 @@ func runC10(r *fw.Run) {
 	defer c10DeferScopedKeys(r)
 	defer c10SeekPredicateIsDepthIndependent(r)
 	defer c10NoDefersWhenDataIsNull(r)
+	defer c10DeferIdsAreNotOrdered(r)
 	defer func() {
 		r.Rule("C10-R7", "every hand-written duplicate of a resolve.Field in the post-processor / planner (a Field literal fed from another Field) sets every field that Field.Copy sets — in particular Defer and Stream")
 		fieldDuplicationsCarryCopyFields(r, "C10-R7")
@@ -821,4 +825,74 @@ func c10NoDefersWhenDataIsNull(r *fw.Run) {
 	})
 	r.Check(reads, "C10-R10", "Resolvable.deferAnchorAlive/tests-the-data-null-record", da.Pos(), "deferAnchorAlive tests the record that the initial data was null",
 		"the anchor gating does not consult the record: defers are announced and scheduled although data is null")
+}
+
+// c10DeferIdsAreNotOrdered (R12): defer ids are identities. Which scope encloses which is recorded in
+// DeferDescriptor.ParentID and decided by walking that chain; the numeric order of two ids says nothing the renderer may
+// rely on (siblings a < b are unrelated, and the order in which their requests complete is arbitrary). Two defer ids are
+// therefore only ever compared with == / != in the resolver, the planner and the post-processor; a relational comparison
+// between two of them (a test against a constant such as id > 0 is a validity test and is left alone) makes the content
+// of a frame depend on the order of completion.
+func c10DeferIdsAreNotOrdered(r *fw.Run) {
+	p := r.Prog
+	r.Rule("C10-R12", "two defer ids are compared for identity only (== / !=), never with < <= > >=: enclosure is decided by the ParentID chain")
+	nEq := 0
+	for _, alias := range []string{"resolve", "plan", "postprocess"} {
+		for _, fi := range p.Funcs(alias) {
+			info := fi.Info()
+			var d *localDeriver
+			isID := func(e ast.Expr) bool {
+				fv, _ := fw.Field(info, e)
+				if fv == nil || !types.Identical(fv.Type(), types.Typ[types.Int]) {
+					return false
+				}
+				if fv.Name() == "DeferID" {
+					return true
+				}
+				return (fv.Name() == "ID" || fv.Name() == "ParentID") && fw.IsFieldSel(info, e, "resolve", "DeferDescriptor", fv.Name())
+			}
+			derivesFromID := func(e ast.Expr) bool {
+				if _, isConst := fw.ConstVal(info, e); isConst {
+					return false
+				}
+				if isID(ast.Unparen(e)) {
+					return true
+				}
+				if id, ok := ast.Unparen(e).(*ast.Ident); ok {
+					if d == nil {
+						d = newLocalDeriver(fi)
+					}
+					for _, rhs := range d.defs[info.ObjectOf(id)] {
+						if isID(ast.Unparen(rhs)) {
+							return true
+						}
+					}
+				}
+				return false
+			}
+			bad := ""
+			fw.WalkAll(fi.Decl.Body, func(nd ast.Node) bool {
+				b, ok := nd.(*ast.BinaryExpr)
+				if !ok {
+					return true
+				}
+				switch b.Op {
+				case token.EQL, token.NEQ:
+					if derivesFromID(b.X) && derivesFromID(b.Y) {
+						nEq++
+					}
+				case token.LSS, token.LEQ, token.GTR, token.GEQ:
+					if derivesFromID(b.X) && derivesFromID(b.Y) {
+						bad = p.Pos(b.Pos())
+					}
+				}
+				return true
+			})
+			if bad != "" {
+				r.Fail("C10-R12", fi.Name()+"/defer-ids-not-ordered", bad, fi.Name()+" compares two defer ids for identity only",
+					"two defer ids are compared by their numeric order: which fields of another scope a frame renders then depends on the numbering (document order) instead of the enclosure recorded in ParentID — a sibling scope whose request completed earlier is rendered into, or skipped from, the wrong frame")
+			}
+		}
+	}
+	r.Check(nEq >= 1, "C10-R12", "defer-id-identity-comparisons", "", "identity comparisons between two defer ids found ("+itoa(nEq)+"); none is relational", "no identity comparison between defer ids was recognised: the rule no longer sees the renderer's gating")
 }
